@@ -1,12 +1,37 @@
 //! The list of harnesses (one `#[kani::proof]` each + native registry).
 use crate::*;
-use crate::state::Shape;
+use crate::state::{PeerShape, Shape};
 use raft::StateRole;
 
 const F21: Shape = Shape::follower3(2, 1);
 const F21T: Shape = Shape::follower3(2, 1).with_terms(&[1, 2, 3]);
 const L21T: c14::LogShape = c14::LogShape { base: 0, n_stable: 2, n_unstable: 1, terms: &[1, 2, 3] };
 const F30: Shape = Shape::follower3(3, 0);
+const L21: Shape = Shape::follower3(2, 1).with_role(StateRole::Leader);
+// leader scenarios: log terms [1,2,2] (2 stable + 1 unstable), term 2; indexes concrete, the rest symbolic
+const L21S: Shape = L21.with_terms(&[1, 2, 2]).with_term(2).with_flags(false, false, false);
+// peer 2 probing (matched 1, next 3) acks 2; peer 3 matched 0: quorum index = 2 with the leader's persisted 2 -> commit 1 -> 2
+const L21_PP: Shape = L21S.with_commit(1).with_persisted(2).with_peers(&[PeerShape::probe(2, 3).matched(1), PeerShape::probe(3, 2).matched(0)]);
+const L21_RW: Shape = L21S.with_commit(1).with_persisted(2).with_peers(&[PeerShape::replicate(2, 3, 1).matched(1), PeerShape::probe(3, 2).matched(0)]);
+const L21_STALE: Shape = L21S.with_commit(2).with_persisted(2).with_peers(&[PeerShape::replicate(2, 4, 0).matched(2), PeerShape::probe(3, 2).matched(0)]);
+const L21_REJ: Shape = L21S.with_commit(0).with_persisted(2).with_peers(&[PeerShape::probe(2, 3).matched(0).paused(), PeerShape::probe(3, 2).matched(0).paused()]);
+const L21_XFER: Shape = L21S.with_commit(2).with_persisted(2).with_peers(&[PeerShape::replicate(2, 4, 1).matched(2), PeerShape::probe(3, 2).matched(0).paused()]);
+const L21_JOINT: Shape = L21S.with_conf(&[1, 2, 3], &[1, 3, 4], &[], &[], false).with_commit(1).with_persisted(2).with_peers(&[PeerShape::probe(2, 3).matched(1), PeerShape::probe(3, 2).matched(0).paused(), PeerShape::probe(4, 2).matched(0).paused()]);
+const L21_JOINT_OK: Shape = L21S.with_conf(&[1, 2, 3], &[1, 2, 4], &[], &[], false).with_commit(1).with_persisted(2).with_peers(&[PeerShape::probe(2, 3).matched(1), PeerShape::probe(3, 2).matched(0).paused(), PeerShape::probe(4, 2).matched(0).paused()]);
+// heartbeat-response scenarios
+const L21_HB_PROBE: Shape = L21S.with_commit(1).with_persisted(2).with_peers(&[PeerShape::probe(2, 2).matched(1).paused(), PeerShape::probe(3, 2).matched(0).paused()]);
+const L21_HB_FULL: Shape = L21S.with_inflight(1).with_commit(1).with_persisted(2).with_peers(&[PeerShape::replicate(2, 3, 1).matched(1), PeerShape::probe(3, 2).matched(0).paused()]);
+const L21_HB_SNAP: Shape = L21S.with_commit(1).with_persisted(2).with_peers(&[PeerShape::snapshot(2, 2).matched(0), PeerShape::probe(3, 2).matched(0).paused()]);
+const L21_HB_DONE: Shape = L21S.with_commit(1).with_persisted(2).with_peers(&[PeerShape::replicate(2, 4, 0).matched(3), PeerShape::probe(3, 2).matched(0).paused()]);
+// check-quorum: peers inactive / one active
+const L21_CQ_LOST: Shape = L21S.with_flags(true, false, false).with_commit(1).with_persisted(2).with_peers(&[PeerShape::probe(2, 2).matched(1).inactive(), PeerShape::probe(3, 2).matched(0).inactive()]);
+const L21_CQ_OK: Shape = L21S.with_flags(true, false, false).with_commit(1).with_persisted(2).with_peers(&[PeerShape::probe(2, 2).matched(1), PeerShape::probe(3, 2).matched(0).inactive()]);
+const L21_LEARNER: Shape = L21S.with_conf(&[1, 2, 3], &[], &[4], &[], false).with_commit(1).with_persisted(2).with_peers(&[PeerShape::replicate(2, 4, 0).matched(3), PeerShape::probe(3, 2).matched(0).paused(), PeerShape::probe(4, 2).matched(0).paused()]);
+const L21_PROP: Shape = L21S.with_commit(1).with_persisted(2).with_applied(1).with_peers(&[PeerShape::probe(2, 2).matched(1).paused(), PeerShape::probe(3, 2).matched(0).paused()]);
+const L21_PROP_JOINT: Shape = L21_JOINT_OK.with_applied(1);
+const L21_PERSIST: Shape = L21S.with_commit(1).with_persisted(1).with_peers(&[PeerShape::probe(2, 3).matched(2).paused(), PeerShape::probe(3, 2).matched(0).paused()]);
+// same but the leader has persisted only 1: the ack alone must not commit index 2 (leader counts only what it persisted)
+const L21_PP_UNPERSISTED: Shape = L21S.with_commit(1).with_persisted(1).with_peers(&[PeerShape::probe(2, 3).matched(1), PeerShape::probe(3, 2).matched(0)]);
 const F30C1: Shape = Shape::follower3(3, 0).with_commit(1).with_etypes(&[0, 0, 2]).with_terms(&[1, 2, 3]);
 const F30C1N: Shape = Shape::follower3(3, 0).with_commit(1).with_etypes(&[0, 0, 0]);
 const F21C1: Shape = Shape::follower3(2, 1).with_commit(1).with_terms(&[1, 2, 5]);
@@ -188,6 +213,131 @@ harnesses! {
     { heartbeat_f21, "C05", quick, unwind = 10,
       "one Raft::step(MsgHeartbeat) on a follower: commit rule, echo of context, log untouched, stale-term reply rule",
       |s| c05::heartbeat_step(s, &F21) }
+    // ---------------- leader: append responses (C04 / C13 / C10 / C17) ----------------
+    { appresp_ack_probe, "C04,C13,C10,C17,C05,C01", quick, unwind = 8,
+      "leader (3 voters, log 2 stable + 1 unstable, symbolic terms/commit/persisted/flags) receives an ack of index 2 from peer 2 in Probe state (matched 1, next 3): becomes Replicate, commit rule checked against a quorum oracle, emitted appends well-formed",
+      |s| c04::appresp_step(s, &L21_PP, 2, 2, false, 0, 0, false, true) }
+    { appresp_ack_unpersisted, "C04,C13,C06", quick, unwind = 8,
+      "same, but the leader itself has persisted only index 1: the single ack of 2 is not a quorum, commit must stay",
+      |s| c04::appresp_step(s, &L21_PP_UNPERSISTED, 2, 2, false, 0, 0, false, false) }
+    { appresp_ack_window, "C04,C13,C10", quick, unwind = 8,
+      "leader: ack of index 2 from a replicating peer with one inflight append (matched 1, next 3): window slot freed, next entry sent, commit advances",
+      |s| c04::appresp_step(s, &L21_RW, 2, 2, false, 0, 0, false, true) }
+    { appresp_ack_stale, "C04,C13", quick, unwind = 8,
+      "leader: duplicate/stale ack (index 1 <= matched 2): nothing moves, nothing sent",
+      |s| c04::appresp_step(s, &L21_STALE, 2, 1, false, 0, 0, false, false) }
+    { appresp_reject_probe, "C10,C13,C04", quick, unwind = 8,
+      "leader: rejection of the probe at index 2 with hint (1, term 1): next_idx falls to 2, probe re-sent, one entry-carrying append then paused",
+      |s| c04::appresp_step(s, &L21_REJ, 2, 2, true, 1, 1, false, false) }
+    { appresp_reject_stale, "C10,C13", thorough, unwind = 8,
+      "leader: stale rejection (index 1 is not next-1): ignored",
+      |s| c04::appresp_step(s, &L21_REJ, 2, 1, true, 0, 0, false, false) }
+    { appresp_ack_transfer, "C17,C04,C13", quick, unwind = 8,
+      "leader with a pending transfer to peer 2: ack of the last index (3) -> MsgTimeoutNow only now, to the target only",
+      |s| c04::appresp_step(s, &L21_XFER, 2, 3, false, 0, 0, true, false) }
+    { appresp_ack_joint_no, "C04,C12", quick, unwind = 8,
+      "leader in joint config {1,2,3}&&{1,3,4}: ack from 2 gives a majority of the incoming half only -> must not commit",
+      |s| c04::appresp_step(s, &L21_JOINT, 2, 2, false, 0, 0, false, false) }
+    { appresp_ack_joint_yes, "C04,C12", quick, unwind = 8,
+      "leader in joint config {1,2,3}&&{1,2,4}: ack from 2 gives a majority of both halves -> commits",
+      |s| c04::appresp_step(s, &L21_JOINT_OK, 2, 2, false, 0, 0, false, true) }
+    // ---------------- leader: heartbeat responses, local inputs, proposals, transfer, tick ----------------
+    { hbresp_probe_paused, "C10,C13", quick, unwind = 8,
+      "leader: heartbeat response from a paused probing peer that is behind: resumed, exactly one append sent",
+      |s| c04::hbresp_step(s, &L21_HB_PROBE, 2) }
+    { hbresp_window_full, "C10,C13", quick, unwind = 8,
+      "leader: heartbeat response from a replicating peer whose window (max_inflight 1) is full: one slot freed, one append sent, window never exceeds its capacity",
+      |s| c04::hbresp_step(s, &L21_HB_FULL, 2) }
+    { hbresp_snapshot, "C10,C13,C15", quick, unwind = 8,
+      "leader: heartbeat response from a peer with an outstanding snapshot: nothing is sent",
+      |s| c04::hbresp_step(s, &L21_HB_SNAP, 2) }
+    { hbresp_caught_up, "C10,C13", thorough, unwind = 8,
+      "leader: heartbeat response from a peer that has the whole log: nothing is sent",
+      |s| c04::hbresp_step(s, &L21_HB_DONE, 2) }
+    { leader_beat, "C13,C10", quick, unwind = 8,
+      "leader: MsgBeat -> one heartbeat per peer, commit advertised <= min(matched, commit)",
+      |s| c04::local_step(s, &L21_HB_PROBE, 1, 2) }
+    { leader_checkquorum_lost, "C16,C10", quick, unwind = 8,
+      "leader with check_quorum: no peer recently active -> steps down to follower at the same term",
+      |s| c04::local_step(s, &L21_CQ_LOST, 2, 2) }
+    { leader_checkquorum_ok, "C16,C10", quick, unwind = 8,
+      "leader with check_quorum: one of two peers recently active (a quorum with self) -> stays leader, activity flags reset",
+      |s| c04::local_step(s, &L21_CQ_OK, 2, 2) }
+    { leader_unreachable, "C10,C13", quick, unwind = 8,
+      "leader: MsgUnreachable for a replicating peer -> back to probing from matched+1",
+      |s| c04::local_step(s, &L21_RW, 3, 2) }
+    { leader_snapstatus, "C15,C10", quick, unwind = 8,
+      "leader: MsgSnapStatus (finish/failure symbolic) for a peer in Snapshot state -> probing resumes at the right index, paused until the next ack",
+      |s| c04::local_step(s, &L21_HB_SNAP, 4, 2) }
+    { propose_normal, "C13,C05,C09", quick, unwind = 8,
+      "leader: proposal of one 2-byte entry, no size limit: appended with (term, last+1), broadcast to unpaused peers",
+      |s| c04::propose_step(s, &L21_PROP, &[0], 2, 0, false, u64::MAX, 0) }
+    { propose_limit_exact, "C13", quick, unwind = 8,
+      "leader: max_uncommitted_size 7, 3 bytes outstanding, proposal of 2x2 bytes = exactly the limit -> admitted",
+      |s| c04::propose_step(s, &L21_PROP, &[0, 0], 2, 0, false, 7, 3) }
+    { propose_limit_over, "C13", quick, unwind = 8,
+      "leader: max_uncommitted_size 6, 3 bytes outstanding, proposal of 2x2 bytes -> ProposalDropped, nothing changes",
+      |s| c04::propose_step(s, &L21_PROP, &[0, 0], 2, 0, false, 6, 3) }
+    { propose_limit_first, "C13", quick, unwind = 8,
+      "leader: nothing outstanding -> a proposal larger than the limit is still admitted",
+      |s| c04::propose_step(s, &L21_PROP, &[0, 0], 2, 0, false, 1, 0) }
+    { propose_limit_empty, "C13", thorough, unwind = 8,
+      "leader: empty payload is never refused even when the limit is exhausted",
+      |s| c04::propose_step(s, &L21_PROP, &[0], 0, 0, false, 1, 5) }
+    { propose_transfer, "C17", quick, unwind = 8,
+      "leader with a transfer in progress refuses proposals",
+      |s| c04::propose_step(s, &L21_PROP, &[0], 2, 0, true, u64::MAX, 0) }
+    { propose_cc_ok, "C09", quick, unwind = 8,
+      "leader: V1 membership proposal with nothing pending (pending_conf_index <= applied) -> kept, pending_conf_index = its index",
+      |s| c04::propose_step(s, &L21_PROP, &[1], 0, 1, false, u64::MAX, 0) }
+    { propose_cc_pending, "C09", quick, unwind = 8,
+      "leader: membership proposal while another one is unapplied (pending_conf_index 3 > applied 1) -> replaced by an empty normal entry",
+      |s| c04::propose_step(s, &L21_PROP, &[1], 0, 3, false, u64::MAX, 0) }
+    { propose_cc_two, "C09", quick, unwind = 8,
+      "leader: two membership entries in one proposal -> the second is replaced",
+      |s| c04::propose_step(s, &L21_PROP, &[1, 3], 0, 1, false, u64::MAX, 0) }
+    { propose_cc_leave_nonjoint, "C09", quick, unwind = 8,
+      "leader not in a joint config: leave-joint proposal -> replaced",
+      |s| c04::propose_step(s, &L21_PROP, &[2], 0, 1, false, u64::MAX, 0) }
+    { propose_cc_enter_while_joint, "C09,C12", quick, unwind = 8,
+      "leader already in a joint config: enter-joint proposal -> replaced; leave-joint accepted",
+      |s| c04::propose_step(s, &L21_PROP_JOINT, &[3, 2], 0, 1, false, u64::MAX, 0) }
+    { transfer_uptodate, "C17", quick, unwind = 8,
+      "leader: MsgTransferLeader naming a voter that holds the whole log -> MsgTimeoutNow immediately",
+      |s| c04::transfer_step(s, &L21_HB_DONE, 2, None) }
+    { transfer_lagging, "C17", quick, unwind = 8,
+      "leader: transfer to a lagging voter -> append sent, no MsgTimeoutNow yet; a pending transfer to another node is replaced",
+      |s| c04::transfer_step(s, &L21_HB_DONE, 3, Some(2)) }
+    { transfer_learner, "C17", quick, unwind = 8,
+      "leader: transfer naming a learner -> ignored",
+      |s| c04::transfer_step(s, &L21_LEARNER, 4, Some(2)) }
+    { transfer_unknown, "C17", quick, unwind = 8,
+      "leader: transfer naming an unknown node -> ignored",
+      |s| c04::transfer_step(s, &L21_HB_DONE, 9, Some(2)) }
+    { transfer_self, "C17", quick, unwind = 8,
+      "leader: transfer naming the leader itself -> at most cancels the pending transfer",
+      |s| c04::transfer_step(s, &L21_HB_DONE, 1, Some(2)) }
+    { transfer_same, "C17", thorough, unwind = 8,
+      "leader: repeated transfer request to the same target -> no-op",
+      |s| c04::transfer_step(s, &L21_HB_DONE, 2, Some(2)) }
+    { leader_tick_timeout, "C17,C10,C16", quick, unwind = 8,
+      "leader tick reaching election_timeout with a pending transfer: transfer abandoned; heartbeat due -> one per peer",
+      |s| c04::leader_tick(s, &L21_HB_PROBE, 9, 2, true) }
+    { leader_tick_quiet, "C10,C17", quick, unwind = 8,
+      "leader tick in the middle of both intervals: nothing happens, transfer stays pending",
+      |s| c04::leader_tick(s, &L21_HB_PROBE, 3, 0, true) }
+    { leader_tick_cq_lost, "C16,C10", quick, unwind = 8,
+      "leader tick reaching election_timeout with check_quorum and no active peer -> steps down",
+      |s| c04::leader_tick(s, &L21_CQ_LOST, 9, 0, false) }
+    { persist_ok, "C04,C06", quick, unwind = 8,
+      "leader on_persist_entries(2, term 2) with persisted 1: persisted and own matched move to 2; commit follows the quorum oracle",
+      |s| c04::persist_step(s, &L21_PERSIST, 2, 2) }
+    { persist_unstable, "C04,C06", quick, unwind = 8,
+      "leader on_persist_entries(3, 2): index 3 is still in the unstable suffix -> ignored",
+      |s| c04::persist_step(s, &L21_PERSIST, 3, 2) }
+    { persist_wrong_term, "C04,C06", quick, unwind = 8,
+      "leader on_persist_entries(2, term 1): term does not match storage -> ignored",
+      |s| c04::persist_step(s, &L21_PERSIST, 2, 1) }
     // ---------------- C09 campaign gating ----------------
     { hup_f30_pending, "C09", quick, unwind = 8,
       "Raft::step(MsgHup) on a follower (3 voters, log of 3, applied=1, commit=3, entry 3 is a ConfChangeV2): must not campaign; symbolic term/vote/leader/timers/flags",
